@@ -539,6 +539,9 @@ def long_library(n, cl, fl):
                 {"decl": "double %s(const double *values_argument_name +rank(1), int count_argument_name +implied(size(values_argument_name)), "
                          "const std::string &label_argument_name)" % nm},
                 {"decl": "int %s(int only_argument_name)" % nm},
+                {"decl": "int %s_cb(int (*callback_argument_name)(int first_callback_parameter_name_that_is_long, "
+                         "double second_callback_parameter_name_long, int third_callback_parameter_name_is_long, "
+                         "int fourth_callback_parameter_name_long), int count_argument_name)" % nm},
                 {"decl": "void %s_g(double first_value, double second_value)" % nm,
                  "fortran_generic": [{"decl": "(float first_value, float second_value)"}, {"decl": "(double first_value, double second_value)"}]},
             ]}
